@@ -25,13 +25,38 @@ def main():
     sched.install()
     try:
         if job["mode"] == "record":
-            out, L, locs = sched.run_alone(fa, record=True)
-            first = {}
-            for idx, loc in enumerate(locs):
-                if loc[0].startswith("data/date_translation_data/"):
-                    continue
-                first.setdefault(tuple(loc), idx + 1)
-            print(json.dumps({"A": out, "L": L, "first": [[f, ln, k] for (f, ln), k in first.items()]}))
+            # own LINE callback: position k of the first execution of every distinct library line, and whether the calling
+            # thread holds the library's lock there (outside the lock is where another call can really overlap)
+            import threading
+
+            from dateparser.conf import _lock
+
+            sched.uninstall()
+            mon, tool, prefix = sys.monitoring, 4, repo_path() + "/dateparser/"
+            me, first, n = threading.get_ident(), {}, [0]
+            owned = getattr(_lock, "_is_owned", lambda: True)
+
+            def on_line(code, line):
+                fn = code.co_filename
+                if not fn.startswith(prefix):
+                    return mon.DISABLE
+                if threading.get_ident() != me:
+                    return
+                n[0] += 1
+                key = (fn[len(prefix):], line)
+                if key not in first and not key[0].startswith("data/date_translation_data/"):
+                    first[key] = (n[0], bool(owned()))
+
+            mon.use_tool_id(tool, "rv-coldrec")
+            mon.register_callback(tool, mon.events.LINE, on_line)
+            mon.set_events(tool, mon.events.LINE)
+            try:
+                out = fa()
+            finally:
+                mon.set_events(tool, 0)
+                mon.register_callback(tool, mon.events.LINE, None)
+                mon.free_tool_id(tool)
+            print(json.dumps({"A": out, "L": n[0], "first": [[f, ln, k, held] for (f, ln), (k, held) in first.items()]}))
             return
         r = sched.schedule(fa, fb, job["k"], timeout=120)
     finally:
